@@ -89,6 +89,40 @@ type camConn struct {
 	playAsked chan struct{} // closed when the PLAY request has been received
 	playGate  chan struct{} // closed by the harness: answer PLAY now
 	gateOnce  sync.Once
+	// a strict camera (RFC 2326): the session id it handed out with a SETUP answer must come back on every
+	// later request (454 Session Not Found otherwise); every Digest challenge carries a fresh nonce
+	sessGiven bool
+	resps     []string        // the response token actually used for each request up to the successful PLAY
+	nonces    map[string]bool // the nonces this connection was challenged with
+	nonceN    int
+}
+
+func (cc *camConn) freshNonce() string {
+	cc.mu.Lock()
+	defer cc.mu.Unlock()
+	cc.nonceN++
+	n := fmt.Sprintf("%s%02d", camNonce, cc.nonceN)
+	if cc.nonces == nil {
+		cc.nonces = map[string]bool{}
+	}
+	cc.nonces[n] = true
+	return n
+}
+
+// nonceOK: a nonce this camera has handed out on this connection
+func (cc *camConn) nonceOK(n string) bool {
+	if n == camNonce {
+		return true
+	}
+	cc.mu.Lock()
+	defer cc.mu.Unlock()
+	return cc.nonces[n]
+}
+
+func (cc *camConn) responses() []string {
+	cc.mu.Lock()
+	defer cc.mu.Unlock()
+	return append([]string(nil), cc.resps...)
 }
 
 func (cc *camConn) releasePlay() { cc.gateOnce.Do(func() { close(cc.playGate) }) }
@@ -101,6 +135,7 @@ type camera struct {
 	conns    []*camConn
 	accepts  chan *camConn
 	gatePlay bool // set before the first connection arrives
+	strict   bool // RFC 2326 camera: insists on its session id after SETUP, fresh nonce per Digest challenge (set before the first connection)
 }
 
 func newCamera(script []string, sdp string) (*camera, error) {
@@ -208,7 +243,7 @@ func (cc *camConn) readRequest() (*seenReq, map[string]string, error) {
 		}
 		r := &seenReq{Method: f[0], URL: f[1], CSeq: hdr["cseq"], Session: hdr["session"], Transport: hdr["transport"], Auth: "none", Cred: "-"}
 		if a, ok := hdr["authorization"]; ok {
-			r.Auth, r.Cred = classifyAuth(a, f[0], f[1])
+			r.Auth, r.Cred = classifyAuth(a, f[0], f[1], cc.nonceOK)
 		}
 		return r, hdr, nil
 	}
@@ -225,7 +260,7 @@ func digestResponse(user, realm, pass, nonce, method, uri string) string {
 
 // classifyAuth: which scheme, and from which password the credentials were derived
 // (independent re-computation per RFC 2617; not the client's own code)
-func classifyAuth(a, method, uri string) (scheme, cred string) {
+func classifyAuth(a, method, uri string, nonceOK func(string) bool) (scheme, cred string) {
 	switch {
 	case strings.HasPrefix(a, "Basic "):
 		raw, err := base64.StdEncoding.DecodeString(a[6:])
@@ -246,13 +281,13 @@ func classifyAuth(a, method, uri string) (scheme, cred string) {
 				kv[strings.TrimSpace(part[:i])] = strings.Trim(strings.TrimSpace(part[i+1:]), `"`)
 			}
 		}
-		if kv["username"] != camUser || kv["realm"] != camRealm || kv["nonce"] != camNonce || kv["uri"] != uri {
+		if kv["username"] != camUser || kv["realm"] != camRealm || !nonceOK(kv["nonce"]) || kv["uri"] != uri {
 			return "digest", "wrong"
 		}
 		switch kv["response"] {
-		case digestResponse(camUser, camRealm, camPass, camNonce, method, uri):
+		case digestResponse(camUser, camRealm, camPass, kv["nonce"], method, uri):
 			return "digest", "plain"
-		case digestResponse(camUser, camRealm, md5hex(camPass), camNonce, method, uri):
+		case digestResponse(camUser, camRealm, md5hex(camPass), kv["nonce"], method, uri):
 			return "digest", "md5"
 		}
 		return "digest", "wrong"
@@ -290,7 +325,11 @@ func (cam *camera) respond(cc *camConn, r *seenReq, tok string) (cont bool, succ
 		status(200, "Session: 77;timeout=60\r\n", body)
 		return true, true
 	case tok == "u-dg":
-		status(401, fmt.Sprintf("WWW-Authenticate: Digest realm=\"%s\", nonce=\"%s\"\r\n", camRealm, camNonce), "")
+		nonce := camNonce
+		if cam.strict {
+			nonce = cc.freshNonce()
+		}
+		status(401, fmt.Sprintf("WWW-Authenticate: Digest realm=\"%s\", nonce=\"%s\"\r\n", camRealm, nonce), "")
 	case tok == "u-db":
 		status(401, fmt.Sprintf("WWW-Authenticate: Digest realm=\"%s\"\r\n", camRealm), "")
 	case tok == "u-bg":
@@ -351,6 +390,14 @@ func (cam *camera) serve(cc *camConn) {
 			tok = cam.script[i]
 		}
 		i++
+		if cam.strict && !playedSignalled && cc.sessGiven && r.Session != "77" && !strings.HasPrefix(r.Session, "77;") {
+			tok = "s454" // RFC 2326: a request of a session that does not name it — Session Not Found
+		}
+		if !playedSignalled {
+			cc.mu.Lock()
+			cc.resps = append(cc.resps, tok)
+			cc.mu.Unlock()
+		}
 		if cam.gatePlay && r.Method == "PLAY" && !playedSignalled {
 			close(cc.playAsked)
 			select {
@@ -360,6 +407,9 @@ func (cam *camera) serve(cc *camConn) {
 			}
 		}
 		cont, success := cam.respond(cc, r, tok)
+		if cam.strict && success && r.Method == "SETUP" && (tok == "ok+s" || tok == "ok+st") {
+			cc.sessGiven = true
+		}
 		if r.Method == "PLAY" && success && !playedSignalled {
 			playedSignalled = true
 			cc.mu.Lock()
